@@ -113,6 +113,13 @@ func (e *FuncEnc) computeLoopMods() {
 				case *ssa.MakeMap:
 					_, hk, _, _, _, _ := e.mapKeys(x.Type().Underlying().(*types.Map))
 					li.modKeys[hk] = true
+				case *ssa.Next:
+					if rng, ok := x.Iter.(*ssa.Range); ok {
+						if mt, ok := rng.X.Type().Underlying().(*types.Map); ok {
+							key, _ := e.visitedKey(rng, mt)
+							li.modKeys[key] = true
+						}
+					}
 				case *ssa.Alloc:
 					for _, lf := range e.leaves(x.Type().Underlying().(*types.Pointer).Elem(), func(s string) string { return s }, 0) {
 						li.modKeys[lf.key] = true
@@ -183,6 +190,13 @@ func (e *FuncEnc) callMods(x ssa.CallInstruction, li *loopInfo) {
 	}
 	if e.W.IsModule(callee) && callee.Blocks != nil {
 		if ct := e.W.ContractFor(callee); ct != nil && ct.Pure {
+			return
+		}
+		if ct := e.W.ContractFor(callee); ct != nil && ct.Modifies != nil {
+			for k := range ct.Modifies {
+				li.modKeys[k] = true
+			}
+			li.modTrace = true
 			return
 		}
 		keys, top, tr := e.W.ModSet(callee)
